@@ -212,9 +212,10 @@ def _sanitiser_functions(prog):
 
 
 class NameTaint:
-    def __init__(self, prog):
+    def __init__(self, prog, sanitisers=True):
         self.prog = prog
-        self.san = _sanitiser_functions(prog)
+        # sanitisers=False: plain provenance ("is built from catalogue names at all")
+        self.san = _sanitiser_functions(prog) if sanitisers else set()
         self.t_decl = set()
         self.t_param = set()
         self.t_ret = set()
@@ -408,10 +409,20 @@ def _constant_suffix(prog, fn, e, depth=0):
         return tail or None
     if k == "DeclRefExpr" and e.get("dk") in ("Var", "ParmVar"):
         written = False
+        appends = []
         for n in fn.walk():
             for d, _ in flow.written_decls(n):
                 if d == e.get("d"):
                     written = True
+                    if n.get("k") == "CXXOperatorCallExpr" and n.get("op") == "+=" and len(n["c"]) == 3:
+                        appends.append(n["c"][2])
+                    elif n.get("k") == "CXXMemberCallExpr" and (strip(n["c"][0]) or {}).get("n") in ("append", "operator+=") and len(n["c"]) == 2:
+                        appends.append(n["c"][1])
+                    else:
+                        appends.append(None)
+        if written and len(appends) == 1 and appends[0] is not None:
+            # a single `v += tail` : v ends in whatever tail ends in
+            return _constant_suffix(prog, fn, appends[0], depth + 1)
         if written:
             return None
         for n in fn.walk():
@@ -471,6 +482,7 @@ def rule_not_an_input(prog, fixture=False):
     if not exts and not fixture:
         raise AnalysisBroken("cannot find the image-file extensions the loader compares against")
     r.info["image_extensions"] = sorted(exts)
+    prov = None
     for fn, n, kind, path in creation_sites(prog):
         if path is None or kind.startswith("fopen:r") or kind == "tmpfile":
             continue
@@ -495,6 +507,14 @@ def rule_not_an_input(prog, fixture=False):
                 via = any(_checks_identity(prog, t) for t in prog.call_targets(fn, a))
                 if direct or via:
                     ok, why = True, "dominated by the identity test %s" % show(a)[:60]
+        if not ok:
+            # only a name the *image* chooses (built from catalogue names) can be made to coincide with the image
+            # file; a name whose tail this rule cannot fold and that does not come from the catalogue is not decided
+            prov = prov or NameTaint(prog, sanitisers=False)
+            if not prov.tainted(fn, path):
+                r.undecided.append("%s: cannot tell what `%s` ends in, and it is not built from catalogue names" %
+                                   (fn.loc(n), show(path)))
+                continue
         r.add(key, fn.loc(n), ok, why if ok else
               "`%s` is opened for writing (truncating) without any test that it is not one of the image files "
               "being read: an image stored in the destination directory under the name of one of its own files "
@@ -530,6 +550,9 @@ def _ends_with_slash_states(fn, g, d):
             return is_slash(x["c"][2]) if x["op"] == "+=" else False
         if k == "DeclStmt" and any(v.get("d") == d for v in x.get("c", [])):
             return False
+        if k == "CallExpr" and notpl(x.get("q") or "") == "std::move" and \
+                any((strip_all(a) or {}).get("d") == d for a in call_args(x)):
+            return False      # a moved-from string is empty (or anything)
         return st
 
     def edge_gen(p, s_):
@@ -602,7 +625,10 @@ def rule_directory_separator(prog, fixture=False):
                         (strip_all(n["c"][1]) or {}).get("d") == v["d"]:
                     use = True
                 elif n.get("k") in ("CallExpr", "CXXMemberCallExpr") and prog.call_targets(fn, n) and \
-                        any((strip_all(a) or {}).get("d") == v["d"] for a in call_args(n)):
+                        any((strip_all(a) or {}).get("d") == v["d"] or
+                            ((strip_all(a) or {}).get("k") == "CallExpr" and notpl((strip_all(a) or {}).get("q") or "") == "std::move" and
+                             any((strip_all(y) or {}).get("d") == v["d"] for y in call_args(strip_all(a))))
+                            for a in call_args(n)):
                     use = True
                 if not use:
                     continue
